@@ -329,6 +329,12 @@ def run(tier, seed, replay):
     else:
         A = dict(ok=False, obligations=1, discharged=0, problems=[], axioms={}, theorems=[])
         proof_broken.append('lake build Rivia.Props.C02 failed: ' + logl[-1000:])
+    lc = None
+    if okl and tier == 'thorough':
+        okc, logc, dtc = vlib.leanchecker('Rivia.Props.C02')
+        lc = dict(ok=okc, seconds=round(dtc, 1), scope=logc[:80])
+        if not okc:
+            proof_broken.append('leanchecker rejects Rivia.Props.C02: ' + logc[-500:])
     known_all = vlib.load_known(prop)
     known = {f['id']: f for f in known_all if f.get('status') == 'open'}
     if replay:
@@ -441,7 +447,7 @@ def run(tier, seed, replay):
     cov = dict(obligations=A['obligations'], discharged=A['discharged'], checker_cmd='cd /verif/lean && lake build Rivia.Props.C02 && lake env lean ../work/audit/C02.lean',
                trusted_base=['hand transcription Rust->Lean of src/sys/fs/stdfs/{mod,entry}.rs (Rivia/Model/Stdfs.lean) and the kernel model Rivia/Model/Posix.lean, both checked by the correspondence run against the real Stdfs in a sandbox directory',
                              'sandbox harness: independent observer using std::fs only (lstat / readlink / read)', 'Lean kernel', 'axioms: ' + ', '.join(sorted({a for v in A['axioms'].values() for a in v}) or ['none'])],
-               theorems=A['theorems'], axioms=A['axioms'], proof_problems=proof_broken, evaluations=evaluations, distinct_nontrivial=len(seen), judged_steps=judged,
+               theorems=A['theorems'], axioms=A['axioms'], proof_problems=proof_broken, leanchecker=lc, evaluations=evaluations, distinct_nontrivial=len(seen), judged_steps=judged,
                correspondence_steps=corr_steps, model_disagreements=len(corr_fail),
                rule='random histories over the shared alphabet (plus the witnesses of all recorded findings) run on the real Stdfs (sandbox), on the real Memfs and on the Lean Stdfs model; after every call: '
                     '(1) real Stdfs vs Lean Stdfs model: success-or-failure, returned value, observed tree; (2) real Stdfs vs real Memfs: the same three (names, kinds, bytes, link targets, permission bits), '
